@@ -10,7 +10,26 @@ mod stream;
 
 use std::io::{BufRead, Write};
 
+/// A logger that is enabled at every level and formats every record (into nothing): code paths of the library that only
+/// run when logging is on - and the formatting of their arguments - are exercised like everything else.
+struct Sink;
+impl log::Log for Sink {
+    fn enabled(&self, _: &log::Metadata) -> bool {
+        true
+    }
+    fn log(&self, r: &log::Record) {
+        use std::fmt::Write as _;
+        let mut s = String::new();
+        let _ = write!(s, "{}", r.args());
+        std::hint::black_box(s);
+    }
+    fn flush(&self) {}
+}
+static SINK: Sink = Sink;
+
 fn main() {
+    let _ = log::set_logger(&SINK);
+    log::set_max_level(log::LevelFilter::Trace);
     // keep panic messages off stderr noise: one short line each
     std::panic::set_hook(Box::new(|_| {}));
     let args: Vec<String> = std::env::args().collect();
